@@ -101,9 +101,42 @@ func ruleC14(c *Ctx) {
 		if maker == nil {
 			continue
 		}
+		// the option returned: on every path the same closure (an option maker that hands back another function for
+		// some arguments - a no-op for a palette it takes for "the default" - does not have the stated effect there)
 		var clo *ssa.Function
-		for _, af := range maker.AnonFuncs {
-			clo = af
+		returned := map[*ssa.Function]bool{}
+		okRet := true
+		retDetail := ""
+		for _, b := range maker.Blocks {
+			ret, isRet := b.Instrs[len(b.Instrs)-1].(*ssa.Return)
+			if !isRet || len(ret.Results) != 1 {
+				continue
+			}
+			for _, lf := range ssaPhiLeaves(ssaLoadedValue(ret.Results[0], maker)) {
+				mc, isClo := ssaStripConv(lf).(*ssa.MakeClosure)
+				if f, isFn := ssaStripConv(lf).(*ssa.Function); isFn {
+					returned[f] = true
+					continue
+				}
+				if !isClo {
+					okRet = false
+					retDetail = "returns " + ssaDescribe(lf) + " at " + c.Pos(ret)
+					continue
+				}
+				returned[mc.Fn.(*ssa.Function)] = true
+			}
+		}
+		for f := range returned {
+			if clo == nil || c.FPos(f) > c.FPos(clo) {
+				clo = f
+			}
+		}
+		if len(returned) > 1 {
+			okRet = false
+			retDetail = fmt.Sprintf("%d different functions are returned depending on the arguments", len(returned))
+		}
+		if clo != nil {
+			R.Check(okRet, "decode."+mk+"#returns", c.FPos(maker), "the same closure on every path", retDetail)
 		}
 		if clo == nil {
 			R.Bad("decode."+mk+"#closure", c.FPos(maker), "returns a closure", "none")
